@@ -18,6 +18,17 @@ oracle  : delivered items are a prefix of the reference decoding of the bytes se
 TCP case families (oracle only): `settle` - every call after the peer's FIN / RST;  `mid` - the fault happens BETWEEN
           receives: k receives of a coalesced burst, then the peer's FIN / RST and / or our own send_packet() on the dead
           connection, noticed by the event loop or not, then receives of every kind (_run_tcp_mid).
+TLS families (round 5, oracle only, vlib/c03_tls.py): `atls` - AsyncStreamEndpoint / AsyncTCPNetworkClient(ssl=...) over the real
+          AsyncTLSStreamTransport on an in-memory wire (virtual time, every call bounded by event-loop turns: a receive that
+          spins is the observation `hang`, not a time-out of the check); `tlstcp` / `tlsatcp` - TCPNetworkClient(ssl=...) /
+          AsyncTCPNetworkClient(ssl=...) over loopback.  The peer ends the stream with close_notify / without it (ragged EOF) /
+          with a reset / another OSError - between packets, inside a frame, inside a TLS record, before any data - for both
+          `standard_compatible` settings, TLS 1.2 / 1.3: every complete packet first, then the end REPORTED with the class
+          documented for the layer and the setting, again at every later call.
+Thread family (round 5, oracle only, vlib/c03_threads.py): `tcpmt` - 2 to 4 threads on ONE blocking TCPNetworkClient: some parked in
+          recv_packet() (with a part of a frame taken), others with recv_packet(timeout=0 | small) /
+          iter_received_packets(timeout=0 | small), the peer feeding the stream in between: together they receive exactly what
+          was sent, each packet once, per thread in stream order, every call ends with a packet / TimeoutError / the end.
 """
 from __future__ import annotations
 
@@ -29,6 +40,7 @@ import threading
 from typing import Any
 
 from vlib import core, sers, streamdrive as sd
+from vlib import c03_threads as mt, c03_tls as tls
 
 from easynetwork.exceptions import StreamProtocolParseError
 from easynetwork.lowlevel.api_async.backend._asyncio.backend import AsyncIOBackend
@@ -55,6 +67,7 @@ LEVEL_NOTE = (
 TECHNIQUE = "Lean 4 theorems (inductive invariant over call histories, refinement to byte-level decoding) + differential correspondence + reference-decoder oracle"
 TRUSTED_BASE = [
     "Lean 4.33.0 kernel; axioms allowed: propext, Classical.choice, Quot.sound",
+    "stdlib ssl / OpenSSL as the TLS peer of the harness (in-memory SSLObject, loopback server thread)",
     "hand-written model Model/Endpoint.lean of the four receiver implementations, tied by this correspondence check",
     "scripted transports of the harness (implement EasyNetwork's public transport ABCs)",
 ]
@@ -63,6 +76,10 @@ ASSUMPTIONS = ["a read that would block for ever is represented by the script ru
 RULE = ("case = serializer x path x API x script (chunking, would-block/reset/oserr, close position) x call history (timeouts None/>0/0); "
         "TCP clients additionally: peer close FIN/RST before the calls, or BETWEEN receives (after k packets of a coalesced burst) "
         "x our own send_packet() before/after it x event-loop turns before the next call; "
+        "TLS (AsyncTLSStreamTransport under the endpoint / the client, in memory; TLS clients over loopback): TLS 1.2/1.3 x "
+        "standard_compatible x OP_IGNORE_UNEXPECTED_EOF x record cutting x ciphertext chunking x late arrivals x end of the stream "
+        "(close_notify / ragged EOF / reset / OSError / none) at a record boundary or inside a record x call history; "
+        "threads: 2-4 threads on one TCPNetworkClient x feeds cut inside frames x parked / bounded / racing calls; "
         "non-trivial = close inside a frame or before any data, or a would-block/zero-timeout call, or calls after end-of-stream, "
         "or a fault between receives; distinct by digest")
 
@@ -519,7 +536,20 @@ def _run_tcp_mid(case: dict) -> list[str]:
     return lines
 
 
+TLS_APIS = ("atls", "tlstcp", "tlsatcp")
+
+
+def _count_items_fn(spec: dict):
+    return lambda data: len(_decode_items(spec, data))
+
+
 def run_real(case: dict) -> list[str]:
+    if case["api"] == "atls":
+        return tls.run_mem(case)
+    if case["api"] in tls.LOOPBACK:
+        return tls.run_loopback_checked(case)
+    if case["api"] == "tcpmt":
+        return mt.run(case, _count_items_fn(case["spec"]))
     if case["api"] in ("tcp", "atcp") and case.get("mid"):
         return _run_tcp_mid(case)
     if case["api"] in ("tcp", "atcp"):
@@ -528,7 +558,7 @@ def run_real(case: dict) -> list[str]:
 
 
 def model_input(case: dict, real: list[str]):
-    if case["api"] in ("tcp", "atcp"):
+    if case["api"] in ("tcp", "atcp", "tcpmt") + TLS_APIS:
         return None
     if case["api"] == "async" and any(c["t"] == "zero" for c in case["calls"]):
         return None       # expired-deadline receives on the asynchronous endpoint: judged by the oracle only
@@ -656,6 +686,10 @@ def _taken_before_fault(case: dict, outs_before: list[str]) -> int | None:
 
 
 def oracle(case: dict, real: list[str]) -> str | None:
+    if case["api"] in TLS_APIS:
+        return tls.oracle(case, real, _decode_items)
+    if case["api"] == "tcpmt":
+        return mt.oracle(case, real, _expected(case)[0])
     # the class of the end-of-stream report is judged on its own; everything else (order, completeness, stickiness) is judged
     # on the history with every such report read as an end-of-stream
     wrong = [(k, ln.split()[1]) for k, ln in enumerate(ln for ln in real if not ln.startswith(("nreads ", "send ", "fault ")) and ln != "iter-end")
@@ -720,6 +754,10 @@ def _oracle_body(case: dict, real: list[str]) -> str | None:
 
 
 def nontrivial(case: dict, real: list[str]) -> str | None:
+    if case["api"] in TLS_APIS:
+        return tls.nontrivial(case, real)
+    if case["api"] == "tcpmt":
+        return mt.nontrivial(case, real)
     outs = [ln for ln in real if not ln.startswith(("nreads ", "send ", "fault ")) and ln != "iter-end"]
     tags = []
     if outs.count("eos") >= 2:
@@ -738,6 +776,17 @@ def nontrivial(case: dict, real: list[str]) -> str | None:
 
 
 def shrink(case: dict):
+    if case["api"] in TLS_APIS:
+        yield from tls.shrink(case)
+        return
+    if case["api"] == "tcpmt":
+        plan = case["plan"]
+        for i in range(len(plan)):
+            if len(plan) > 1 and plan[i][0] != "close":
+                yield {**case, "plan": plan[:i] + plan[i + 1:]}
+        if case.get("nthreads", 2) > 2:
+            yield {**case, "nthreads": case["nthreads"] - 1}
+        return
     ev = case["events"]
     for i in range(len(ev)):
         if len(ev) > 1:
@@ -749,7 +798,8 @@ def shrink(case: dict):
 
 
 def known_key(case: dict, real: list[str], why: str) -> str:
-    return f"api={case['api']},path={case['path']}" + (",fault-between-receives" if case.get("mid") else "")
+    return (f"api={case['api']},path={case['path']}" + (",fault-between-receives" if case.get("mid") else "")
+            + (f",layer={case['layer']}" if case.get("layer") else ""))
 
 
 def _gen_spec(rng) -> dict:
@@ -853,6 +903,50 @@ def _gen_mid_case(rng, api: str) -> dict:
     return case
 
 
+def _frame_ends(spec: dict, data: bytes) -> list[int]:
+    """offsets just after each complete frame of `data` (reference framing: separator / fixed size)"""
+    sep = sers.separator(spec)
+    n = sers.fixed_size(spec)
+    out: list[int] = []
+    if sep is not None:
+        i = data.find(sep)
+        while i >= 0:
+            out.append(i + len(sep))
+            i = data.find(sep, i + len(sep))
+    elif n:
+        out = list(range(n, len(data) + 1, n))
+    return out
+
+
+def _inside_frame(spec: dict, data: bytes) -> bool:
+    ends = _frame_ends(spec, data)
+    return len(data) > (ends[-1] if ends else 0)
+
+
+def _n_items_tls(case: dict) -> int:
+    return len(_decode_items(case["spec"], tls.delivered_plain(case)))
+
+
+def _gen_tls_case(rng, loopback: bool) -> dict:
+    """TLS receive paths: the plaintext of a scripted case, one TLS record per chunk; the peer ends the stream with close_notify,
+    without it (ragged EOF), with a reset / another OSError - between two records, inside a record, before any data"""
+    base = _gen_case(rng, "sync")
+    case = (tls.gen_loopback_case if loopback else tls.gen_mem_case)(rng, base, _n_items_tls)
+    case["close_inside"] = _inside_frame(case["spec"], tls.delivered_plain(case))
+    return case
+
+
+def _gen_mt_case(rng) -> dict:
+    """several threads on one blocking TCPNetworkClient (vlib/c03_threads.py)"""
+    base = _gen_case(rng, "tcp")
+    data = b"".join(bytes.fromhex(e[1]) for e in base["events"] if e[0] == "data")
+    nthreads = rng.choice([2, 2, 3, 3, 4])
+    feeds, plan = mt.gen_plan(rng, data, _frame_ends(base["spec"], data), nthreads)
+    return {"api": "tcpmt", "spec": base["spec"], "path": base["path"], "maxrecv": rng.choice([1, 3, 8, 64, 16384, 16384]),
+            "events": [["data", data.hex()], ["eof"]] if data else [["eof"]], "feeds": feeds, "plan": plan, "nthreads": nthreads,
+            "close_inside": _inside_frame(base["spec"], data), "calls": []}
+
+
 def corpus() -> list[dict]:
     crlf = {"k": "line", "newline": "CRLF", "keep_end": False, "encoding": "ascii", "limit": 16}
     out = []
@@ -899,6 +993,51 @@ def corpus() -> list[dict]:
                 # small reads: only part of the burst is in the consumer when the connection is lost
                 out.append({**base, "maxrecv": 3, "noticed": 3, "events": [["data", "410a420a"], ["data", "430a440a"], ["eof"]],
                             "calls": [{"k": "recv", "t": "none"}, {"k": "close"}, {"k": "send"}] + tail})
+    # TLS receive paths (round 5): the peer ends the stream with / without close_notify / with a reset - between packets, inside
+    # a frame, inside a TLS record, before any data; every complete packet first, then the end REPORTED (never a hang), again
+    # at every later call
+    tail3 = [{"k": "recv", "t": "none"}] * 3
+    mixed = [{"k": "recv", "t": "none"}, {"k": "recv", "t": "zero"}, {"k": "recv", "t": "pos"}] + tail3 + tail3
+    for layer in ("endpoint", "client"):
+        for sc in (True, False):
+            for path in ("copy", "buffered"):
+                base = {"api": "atls", "layer": layer, "spec": lf, "path": path, "maxrecv": 16384, "tls": "1.3", "sc": sc,
+                        "ignore_eof": False, "wire": [7, 300], "cut": None, "close_inside": False, "calls": mixed}
+                two = [["data", "410a420a"], ["data", "430a"]]
+                out.append({**base, "events": two, "end": "ragged"})                                        # between packets
+                out.append({**base, "events": two + [["data", "44"]], "end": "ragged", "close_inside": True})  # inside a frame
+                out.append({**base, "events": two, "end": "ragged", "cut": [1, 500]})                       # inside a TLS record
+                out.append({**base, "events": [], "end": "ragged", "cut": [0, 0]})                          # before any data
+                out.append({**base, "events": two, "end": "notify", "tls": "1.2"})
+                out.append({**base, "events": two, "end": "reset", "cut": [1, 0]})
+                out.append({**base, "events": two, "end": "ragged", "delays": [0, 6.0], "wire": [65536],
+                            "calls": [{"k": "recv", "t": "pos"}] * 4 + tail3 + tail3})                      # late arrivals
+                if layer == "client":
+                    out.append({**base, "events": two, "end": "ragged",
+                                "calls": [{"k": "iter", "t": "none"}] + tail3})
+    for api in tls.LOOPBACK:
+        for sc in (True, False):
+            for path in ("copy", "buffered"):
+                base = {"api": api, "spec": lf, "path": path, "maxrecv": 16384, "tls": "1.3", "sc": sc, "ignore_eof": False,
+                        "cut": None, "noticed": 3, "close_inside": False, "events": [["data", "410a420a"], ["data", "430a44"]],
+                        "calls": [{"k": "recv", "t": "none"}, {"k": "recv", "t": "zero"}, {"k": "iter", "t": "zero"}] + tail3 + tail3}
+                out.append({**base, "end": "ragged", "close_inside": True})
+                out.append({**base, "end": "notify", "close_inside": True})
+                out.append({**base, "end": "ragged", "cut": [0, 0], "noticed": 0})
+            out.append({**base, "end": "rst"})
+    # several threads on one blocking client: A parked in recv_packet() with a part of a frame, B (C) come with bounded calls
+    stream = "68656c6c6f0a776f726c640a780a"          # hello\n world\n x\n
+    for path in ("copy", "buffered"):
+        base = {"api": "tcpmt", "spec": lf, "path": path, "maxrecv": 16384, "events": [["data", stream], ["eof"]],
+                "feeds": [3, 5], "close_inside": False, "calls": []}
+        for nth, plan in ((2, [["feed"], ["park", "none"], ["call", "recv", "zero"], ["feed"], ["close"]]),
+                          (2, [["feed"], ["park", "none"], ["call", "iter", "zero"], ["feed"], ["close"]]),
+                          (2, [["feed"], ["park", "long"], ["call", "recv", "small"], ["feed"], ["close"]]),
+                          (2, [["park", "none"], ["call", "recv", "zero"], ["call", "iter", "small"], ["feed"], ["feed"], ["close"]]),
+                          (3, [["feed"], ["park", "none"], ["call", "recv", "small"], ["park", "none"], ["feed"], ["close"]]),
+                          (3, [["feed"], ["park", "none"], ["race", "recv", "small"], ["feed"], ["park", "long"],
+                               ["call", "iter", "zero"], ["close"]])):
+            out.append({**base, "nthreads": nth, "plan": plan})
     # asynchronous endpoint: receives under an expired deadline while complete packets are buffered
     for path in ("copy", "buffered"):
         out.append({"spec": crlf, "path": path, "api": "async", "events": [["data", "610d0a620d0a630d0a"], ["data", "640d0a"], ["eof"]],
@@ -915,6 +1054,12 @@ def generate(rng, tier: str, boost: int):
         yield _gen_case(rng, rng.choice(["tcp", "atcp"]))
     for _ in range((200 if tier == "quick" else 2000) * boost):
         yield _gen_mid_case(rng, rng.choice(["tcp", "atcp", "atcp"]))
+    for _ in range((500 if tier == "quick" else 6000) * boost):
+        yield _gen_tls_case(rng, False)
+    for _ in range((60 if tier == "quick" else 600) * boost):
+        yield _gen_tls_case(rng, True)
+    for _ in range((120 if tier == "quick" else 1200) * boost):
+        yield _gen_mt_case(rng)
 
 
 def after_batch() -> None:
